@@ -21,13 +21,21 @@ def showErr : PackErr → String
 
 def step (toks : List String) : Option (String × String) :=
   match toks with
-  | "run" :: rest => do
+  | kind :: rest => if kind != "run" && kind != "result" then
+      (match toks with
+       | "mt" :: rest => do
+           let s ← kv rest "s"
+           some (toString (Gen.mediaTypeRe.accepts s.toList), "*")
+       | "det" :: _ => some ("same", "same")
+       | _ => none)
+    else do
       let ver ← match ← kv rest "ver" with | "10" => some PackVer.v10 | "11" => some .v11 | _ => none
       let at_ ← match ← kv rest "at" with
         | "empty" => some MTc.empty | "valid" => some .valid | "invalid" => some .invalid | _ => none
       let cfg ← match ← kv rest "cfg" with
         | "none" => some (none : Option CfgIn)
         | "valid" => some (some ⟨.valid, false⟩)
+        | "validempty" => some (some ⟨.valid, false⟩)
         | "invalid" => some (some ⟨.invalid, false⟩)
         | "emptytype" => some (some ⟨.valid, true⟩)
         | _ => none
@@ -49,14 +57,15 @@ def step (toks : List String) : Option (String × String) :=
       let rejectEarly := (ver == .v10 && subject) || (at_ == .invalid && (ver == .v11 || cfg.isNone)) ||
         (match cfg with | some c => c.mt == .invalid | none => false) ||
         (ver == .v11 && at_ == .empty && (match cfg with | none => true | some c => c.isEmptyJSONType))
-      let sp := if rejectEarly then "- res=err"
-                else if created == .malformed then "*"
-                else "*"
-      some (m, sp)
-  | "mt" :: rest => do
-      let s ← kv rest "s"
-      some (toString (Gen.mediaTypeRe.accepts s.toList), "*")
-  | "det" :: _ => some ("same", "same")
-  | _ => none
+      if kind == "result" then
+        -- the outcome the property fixes: documented rejections and a malformed date fail;
+        -- everything else succeeds with the requested fields and every invented blob present
+        let mres := match res with | .ok _ => "res=ok fields=ok" | .error e => s!"res=err:{showErr e}"
+        let sp := if rejectEarly || created == .malformed then "res=err" else "res=ok fields=ok"
+        some (mres, sp)
+      else
+        let sp := if rejectEarly then "- res=err" else "*"
+        some (m, sp)
+  | [] => none
 
 end Oras.Driver.Pk
